@@ -20,14 +20,14 @@ P = {
             'Held on the generated/corpus configurations listed in evidence.', 'mini-ninja parser (self-tested) is trusted.', '2/C04'),
     'C05': ('exploration', 'happens-before race detection over strace-traced build steps + adversarial schedules executed by a reference ninja executor + hermetic per-edge replay',
             'One traced build decides all schedules under the stated assumption; sampled schedules and replays back it.', 'strace, gcc, mini-ninja executor; steps are functions of files read + argv.', '2/C05'),
-    'C06': ('exploration', 'perturbation of nondeterminism sources (PYTHONHASHSEED, env order, readdir order, build-dir history) with byte comparison of generated files; mtime monitor over replace_if_different outputs on no-change reconfigure',
+    'C06': ('exploration', 'perturbation of nondeterminism sources (PYTHONHASHSEED, env order, readdir order, build-dir history) with byte comparison of generated files; histories include killed-then-recovered configurations; mtime/inode monitor over replace_if_different outputs plus a fixed list of outputs on no-change reconfigure; repository test corpus',
             'Held on the projects x perturbations listed in evidence.', 'same absolute paths across runs; gcc present.', '2/C06'),
     'C07': ('exploration', 'exhaustive source-subset enumeration through the real `meson setup` with distinct value per source (observed value names the winning source); validity invariant hook at coredata.save',
             'Exhaustive over 2^4 / 2^8 source subsets for the option kinds listed in evidence.', 'refoptions precedence table = Builtin-options.md.', '2/C07'),
-    'C08': ('exploration', 'history + executable model: random lifecycle histories, each command a separate process, effective values read back through the real coredata.load/get_value_for and compared with a reference lifecycle model after every step',
+    'C08': ('exploration', 'history + executable model: random lifecycle histories, each command a separate process, effective values read back through the real coredata.load/get_value_for and compared with a reference lifecycle model (option files, default_options, late subproject, recorded command line) after every step; stratified edit kinds, directed and literal scripts',
             'Held on the histories of this run.', 'refoptions lifecycle model follows the property text.', '2/C08'),
-    'C09': ('fault_enumeration', 'SIGKILL fault injection at every Python-level file-system mutation (plus torn writes) of each mutating command, follow-up `meson setup` as oracle; strace cross-check of the op list',
-            'Exhaustive over the enumerated kill points of the listed commands x histories.', 'kill = SIGKILL (page cache survives); rename atomicity assumed.', '2/C09'),
+    'C09': ('fault_enumeration', 'SIGKILL fault injection at every Python-level file-system mutation (plus torn writes) of each mutating command, follow-up `meson setup [--reconfigure]` and a later `--wipe` as oracle (exit status, option values before-or-target, every state/intro file readable); strace cross-check of the op list',
+            'Every enumerated kill point of the listed commands x histories x directory-listing orders is executed, except that runs of >12 identical (file, op) writes are thinned and a wall-clock budget may leave points unexplored (both counted in the evidence; exhaustive=false).', 'kill = SIGKILL (page cache survives); rename atomicity assumed.', '2/C09'),
     'C10': ('exploration', 'decision-table differential monitor through the real `meson setup` (distinct version per provider) + online trace checker "unpack never on unverified bytes" with fault injection at each acquisition step',
             'Covers the factor cross product listed in evidence; integrity classes x locations x fault points.', 'refdeps table = my reading of the cited docs; pkg-config only; file:// URLs.', '2/C10'),
     'C11': ('exploration', 'audit-hook containment monitor inside `meson install` + before/after snapshots of DESTDIR and everything else + expected tree from the generator; install/reinstall/uninstall/dry-run histories',
